@@ -318,9 +318,18 @@ func (env *SpecEnv) ident(n *ast.Ident) Value {
 func (env *SpecEnv) binary(n *ast.BinaryExpr) Value {
 	switch n.Op {
 	case token.LAND:
-		return mkAnd(env.boolTerm(n.X), env.boolTerm(n.Y))
+		// short-circuit: the right operand is evaluated only if the left one may hold
+		l := env.state().sub(env.boolTerm(n.X))
+		if knownFalse(env.state(), l) {
+			return tFalse
+		}
+		return mkAnd(l, env.boolTerm(n.Y))
 	case token.LOR:
-		return mkOr(env.boolTerm(n.X), env.boolTerm(n.Y))
+		l := env.state().sub(env.boolTerm(n.X))
+		if knownTrue(env.state(), l) {
+			return tTrue
+		}
+		return mkOr(l, env.boolTerm(n.Y))
 	case token.EQL, token.NEQ:
 		l, r := env.eval(n.X), env.eval(n.Y)
 		eq := env.equal(l, r, n)
@@ -873,6 +882,7 @@ var ufSigs = map[string]ufSig{
 	"issq":    {[]Sort{SFp}, SBool, nil, nil},
 	"fsqrt":   {[]Sort{SFp}, SFp, nil, nil},
 	"isO":     {[]Sort{SPt}, SBool, nil, nil},
+	"ptxy":    {[]Sort{SFp, SInt}, SPt, nil, nil}, // the curve point with the given x and y-parity (SEC 1 2.3.4 decompression)
 }
 
 var specFuncs = map[string]func(env *SpecEnv, n *ast.CallExpr) Value{}
@@ -1015,6 +1025,16 @@ func init() {
 			st.assume(mkImplies(mkEq(k, mkInt64(0)), mkEq(f(k), mkRingConst(so, big.NewInt(unit)))))
 			return f(k)
 		}
+	}
+	// hashsize(h): digest size of the hash selected by an ECDSAOptions.Hash field (0 means SHA-256)
+	specFuncs["hashsize"] = func(env *SpecEnv, n *ast.CallExpr) Value {
+		h := env.term(n.Args[0])
+		sizes := map[int64]int64{0: 32, 1: 16, 2: 16, 3: 20, 4: 28, 5: 32, 6: 48, 7: 64, 8: 36, 9: 20, 10: 28, 11: 32, 12: 48, 13: 64, 14: 28, 15: 32, 16: 32, 17: 32, 18: 48, 19: 64}
+		res := mkInt64(-1)
+		for k := int64(19); k >= 0; k-- {
+			res = mkIte(mkEq(h, mkInt64(k)), mkInt64(sizes[k]), res)
+		}
+		return res
 	}
 	// atom(t): the same value as t, but kept as one opaque symbol (with the defining equation as a
 	// hypothesis) so that polynomial operations on it are not expanded
